@@ -358,6 +358,48 @@ fn check_large(ctx: &mut Ctx) {
             }
         }
     }
+    // big steps (a day in nanoseconds, 10^10) with an end a hair past / short of a grid point: the count is a
+    // ceiling, not a rounding
+    for a in [0i64, 5, -(1i64 << 40)] {
+        for st in [10_000_000_000i64, 86_400_000_000_000, -10_000_000_000] {
+            for n in 0..=4i64 {
+                for r in [0i64, 1, 1000, st.abs() - 1] {
+                    let b = a + st * n + r * st.signum();
+                    let cnt = if r == 0 { n } else { n + 1 };
+                    let want: Vec<Cell> = (0..cnt).map(|j| Cell::I(a + j * st)).collect();
+                    for c in [Cont::Probe, Cont::Vec] {
+                        ctx.states += 1;
+                        ctx.transitions += 1;
+                        ctx.nontrivial(fam, hash_bytes(format!("big{a},{b},{st}").as_bytes()));
+                        let got = range_i64(c, a, b, st);
+                        ctx.eval(fam, outcome_hash(&got));
+                        if matches!(&got, Outcome::Ok(g) if cells_eq(g, &want, exact_eq)) {
+                            ctx.traces += 1;
+                        } else {
+                            viol(ctx, "range(integers, big step)", None, json!({"family": fam, "type": "i64", "container": format!("{c:?}"), "start": a, "end": b, "step": st}), show_cells(&want), truncate(&show_outcome(&got), 160));
+                        }
+                    }
+                }
+            }
+        }
+    }
+    for (a, st, n) in [(0.0f64, 1.0f64, 3i64), (2.5, -0.5, 0), (0.0, 1.0, 0), (-1.0, 0.25, 8)] {
+        for eps in [2f64.powi(-32), 1e-10, 1e-12] {
+            // end just past the n-th grid point: n + 1 elements; just short of it: n elements
+            for (b, cnt) in [(a + st * n as f64 + eps * st.signum(), n + 1), (a + st * n as f64 - eps * st.signum(), n)] {
+                let want: Vec<Cell> = (0..cnt).map(|j| Cell::f(a + j as f64 * st)).collect();
+                ctx.states += 1;
+                ctx.transitions += 1;
+                let got = range_f64(Cont::Vec, a, b, st);
+                ctx.eval(fam, outcome_hash(&got));
+                if matches!(&got, Outcome::Ok(g) if cells_eq(g, &want, exact_eq)) {
+                    ctx.traces += 1;
+                } else {
+                    viol(ctx, "range(floats, end near a grid point)", None, json!({"family": fam, "start": a, "end": b, "step": st}), show_cells(&want), truncate(&show_outcome(&got), 160));
+                }
+            }
+        }
+    }
     for (a, st) in [(0.0f64, 0.5f64), (-2.25, 0.25), (10.0, -0.75)] {
         for n in counts {
             let b = a + st * n as f64;
